@@ -168,7 +168,9 @@ impl Oplog {
                 if existing.len() > OplogSlot::Entries as usize {
                     let mut entries_buff =
                         get_slices_checked(&existing, OplogSlot::Entries as usize)?.1;
+                    let entries_buff_length = entries_buff.len();
                     let mut entries: Vec<Entry> = Vec::new();
+                    let mut entry_ends: Vec<usize> = Vec::new();
                     let mut partials: Vec<bool> = Vec::new();
                     while let Some(entry_outcome) = Self::validate_leader(entries_buff)? {
                         // Entries carry the header bit that was current when they were written.
@@ -180,14 +182,20 @@ impl Oplog {
                         let res = Entry::decode(entry_outcome.state)?;
                         entries.push(res.0);
                         entries_buff = res.1;
+                        entry_ends.push(entries_buff_length - entries_buff.len());
                         partials.push(entry_outcome.partial_bit);
                     }
 
                     // Remove all trailing partial entries
                     while !partials.is_empty() && partials[partials.len() - 1] {
                         entries.pop();
+                        entry_ends.pop();
                         partials.pop();
                     }
+                    // New entries must be appended after the ones that were found
+                    outcome.oplog.entries_length = entries.len() as u64;
+                    outcome.oplog.entries_byte_length =
+                        entry_ends.last().copied().unwrap_or(0) as u64;
                     outcome.entries = Some(entries.into_boxed_slice());
                 }
                 Ok(Either::Right(outcome))
